@@ -571,6 +571,16 @@ CORPUS = [
     {'cfg': {'pickup': 2, 'timeout': 3, 'batch': None}, 'n': 2,
      'steps': [['schedule', 0, 1, 1, 0, 'commit'], ['commit', 0], ['tick', 1], ['pop', 0], ['task', 0, 0],
                ['crash', 0], ['tick', 4], ['pollSelect', 1], ['pollCapture', 1], ['pollNext', 1], ['pollNext', 1]]},
+    # the same crash as exception unwinding (SystemExit / GreenletExit: the finally clauses of the dying worker
+    # run for real): the captured row must survive, another instance recovers it after the capture timeout
+    {'cfg': {'pickup': 2, 'timeout': 3, 'batch': None}, 'n': 2,
+     'steps': [['schedule', 0, 1, 1, 0, 'commit'], ['commit', 0], ['tick', 1], ['pop', 0], ['task', 0, 0],
+               ['crash', 0, 1], ['tick', 4], ['pollSelect', 1], ['pollCapture', 1], ['pollNext', 1], ['pollNext', 1]]},
+    # ... and unwinding out of the store-poll loop of the instance that captured it
+    {'cfg': {'pickup': 1, 'timeout': 2, 'batch': None}, 'n': 3,
+     'steps': [['schedule', 0, 0, 1, 0, 'commit'], ['commit', 0], ['crash', 0], ['tick', 2], ['pollSelect', 1],
+               ['pollCapture', 1], ['crash', 1, 1], ['tick', 3], ['pollSelect', 2], ['pollCapture', 2],
+               ['pollNext', 2], ['pollNext', 2]]},
     # two pollers select the same job, only one CAS wins
     {'cfg': {'pickup': 1, 'timeout': 2, 'batch': None}, 'n': 3,
      'steps': [['schedule', 0, 0, 1, 0, 'commit'], ['commit', 0], ['crash', 0], ['tick', 2], ['pollSelect', 1],
